@@ -2,7 +2,8 @@ import Lean
 /-!
 `#obligations ID [thm₁, thm₂, …]` — closes every property file.  For each listed theorem it prints
 one line `OBLIGATION ID name axioms=[…] stmt=<hash>`; the check counts these lines (obligations) and
-audits the axiom sets (discharged).  A name that does not resolve is an elaboration error.
+audits the axiom sets (discharged).  A name that does not resolve (a code tie that no longer checks is not in the
+environment, see `Ivg/Gen/Tie/Tolerant.lean`) prints `OBLIGATION-MISSING ID name` and is counted as not discharged.
 -/
 open Lean Elab Command
 
@@ -12,7 +13,11 @@ syntax (name := obligationsCmd) "#obligations " ident " [" ident,* "]" : command
   let id := stx[1].getId
   let names := stx[3].getSepArgs
   for n in names do
-    let c ← liftCoreM <| realizeGlobalConstNoOverloadWithInfo n
+    let c ← try
+        liftCoreM <| realizeGlobalConstNoOverloadWithInfo n
+      catch _ =>
+        logInfo m!"OBLIGATION-MISSING {id} {n.getId}"
+        continue
     let axs ← liftCoreM <| collectAxioms c
     let some info := (← getEnv).find? c | throwError "unknown constant {c}"
     let isThm := match info with | .thmInfo _ => true | _ => false
